@@ -205,12 +205,10 @@ impl ReceiveChannelUnreliable {
         let mut lost_messages: Vec<u64> = Vec::new();
         for (&message_id, last_received) in self.slices_last_received.iter() {
             const DISCARD_AFTER: Duration = Duration::from_secs(3);
+            // Slices can arrive late or duplicated, so a newer message id
+            // can have an older last received time, check all of them.
             if current_time - *last_received >= DISCARD_AFTER {
                 lost_messages.push(message_id);
-            } else {
-                // If the current message is not discard, the next ones will not be discarded
-                // since all the next message were sent after this one.
-                break;
             }
         }
 
